@@ -94,6 +94,7 @@ def parseItem (s : String) : Option Item :=
   | ["X", h, n] => do
     let h ← h.toNat?
     pure (.output h (optAt n))
+  | ["A"] => some .abortSub
   | _ => none
 
 def showIn (st : St) : Option Nat → String
